@@ -327,6 +327,11 @@ class SymTensor:
                 self.cell.set(o.v, "copy_")
                 return self
             raise ShadowAbort("copy_ into an int/bool scalar from a non-int value")
+        if isinstance(o, SymTensor) and _narrower(self.dtype, o.dtype):
+            # narrowing copy (e.g. float32 -> bfloat16 communication buffer): the stored value is the rounded one
+            rnd = uf("round_to_" + str(self.dtype).split(".")[-1], z3.RealSort(), z3.RealSort())
+            g = o.fn()
+            return self._set(lambda i: rnd(g(i)), "copy_(narrowing)")
         f2, _ = self._operand(o)
         return self._set(lambda i: f2(i), "copy_")
 
@@ -378,6 +383,18 @@ class SymTensor:
         return f"<SymTensor {self.name or ''} sid={self.cell.sid} v{self.cell.version}>"
 
     __hash__ = object.__hash__
+
+
+_PREC = {"float64": 3, "float32": 2, "float": 2, "bfloat16": 1, "float16": 1, "half": 1}
+
+
+def _narrower(dst, src):
+    if dst is None or src is None or dst == src:
+        return False
+    d, s_ = _PREC.get(str(dst).split(".")[-1]), _PREC.get(str(src).split(".")[-1])
+    if d is None or s_ is None:
+        return False
+    return d < s_ or (d == s_ == 1)  # bf16 <-> f16 also rounds
 
 
 def _add(a, b):
